@@ -260,6 +260,19 @@ class Family(object):
             ('CPM.indiv_eta', lambda k: self.CPM.compute_individual_parameters(cth[k], ceta[k], return_eta=True)),
             ('CPM.loglik', lambda k: self.CPM.compute_log_likelihood(cth[k], ceta[k].reshape(3, 2))),
         ]
+        # the non-centred models sampled directly (and through a reduced wrapper) with an integer seed
+        self.GNC = chi.GaussianModel(n_dim=2, centered=False)
+        self.LNC = chi.LogNormalModel(n_dim=1, centered=False)
+        self.TNC = chi.TruncatedGaussianModel(n_dim=1)
+        self.RNC = chi.ReducedPopulationModel(chi.GaussianModel(n_dim=2, centered=False))
+        self.RNC.fix_parameters({self.RNC.get_parameter_names()[1]: 0.4})
+        gth = [self._keep('gth', np.array([1.0 + 0.1 * k, 0.4, 0.3, 0.2])) for k in range(3)]
+        calls += [
+            ('GNC.sample', lambda k: self.GNC.sample(gth[k], n_samples=3, seed=s['seed'] + k)),
+            ('LNC.sample', lambda k: self.LNC.sample(gth[k][[0, 2]], n_samples=3, seed=s['seed'] + k)),
+            ('TNC.sample', lambda k: self.TNC.sample(gth[k][[0, 2]], n_samples=3, seed=s['seed'] + k)),
+            ('RNC.sample', lambda k: self.RNC.sample(gth[k][[0, 2, 3]], n_samples=3, seed=s['seed'] + k)),
+        ]
         # a pooled parameter with a covariate effect: the hierarchical (reduced) gradient with upstream sensitivities
         self.CP = chi.CovariatePopulationModel(chi.PooledModel(n_dim=1), chi.LinearCovariateModel(n_cov=1))
         cp_cov = self._keep('cp cov', np.array([[1.0], [2.0], [3.0]]))
